@@ -79,18 +79,24 @@ class ModeWrapper(KDDataset):
 
     @staticmethod
     def get_item(mode, item, batch):
-        if not isinstance(batch, (list, tuple)):
-            assert len(mode.split(" ")) == 1
+        items = mode.split(" ")
+        if len(items) == 1:
+            # single-item mode: the batch is the item itself (ModeWrapper returns no tuple for a single item), also when
+            # the item is a list/tuple of views -> a multi-view item is not a batch of several items
+            assert items[0] == item
             return batch
-        idx = ModeWrapper.get_item_index(mode=mode, item=item)
-        return batch[idx]
+        assert isinstance(batch, (list, tuple))
+        return batch[items.index(item)]
 
     @staticmethod
     def set_item(mode, item, batch, value):
-        if not isinstance(batch, (list, tuple)):
-            assert len(mode.split(" ")) == 1
+        items = mode.split(" ")
+        if len(items) == 1:
+            # single-item mode: the batch is the item itself (see get_item)
+            assert items[0] == item
             return value
-        idx = mode.split(" ").index(item)
+        assert isinstance(batch, (list, tuple))
+        idx = items.index(item)
         return tuple(it if i != idx else value for i, it in enumerate(batch))
 
     @staticmethod
